@@ -398,19 +398,22 @@ fn iter_with_next<T>(
 fn write_long_bracket(value: &[u8]) -> Option<String> {
     let stringified = str::from_utf8(value).ok()?;
 
-    let mut i: usize = value.ends_with(b"]").into();
-    let mut equals = b"=".repeat(i);
-    equals.insert(0, b']');
-    equals.push(b']');
-
+    // find the first level whose closing bracket does not appear before the end of the
+    // value, including the occurrences made of the end of the value and the beginning of
+    // the closing bracket itself (e.g. a value ending with `]` or `]=`)
+    let mut i: usize = 0;
     loop {
-        if value.find(&equals).is_none() {
+        let mut closing_bracket = b"]".to_vec();
+        closing_bracket.extend(b"=".repeat(i));
+        closing_bracket.push(b']');
+
+        let mut content = value.to_vec();
+        content.extend_from_slice(&closing_bracket);
+
+        if content.find(&closing_bracket) == Some(value.len()) {
             break;
-        } else {
-            i += 1;
-            equals[i] = b'=';
-            equals.push(b']');
-        };
+        }
+        i += 1;
     }
     let needs_extra_new_line = if value.starts_with(b"\n") { "\n" } else { "" };
     let equal_signs = "=".repeat(i);
